@@ -168,7 +168,8 @@ def run_one(desc):
                 hits.append(hit("C04/nested-submit-blocks:self-wait", "a submit() issued from inside %s on the hand-over thread %s waits for "
                                 "ever on %s with time-out %s (layers %r, base %s)" % (pend[tid], name, park[1], park[2] if len(park) > 2 else None,
                                                                                       [l[0] for l in desc["layers"]], desc["base"])))
-            elif tid in pend and park and park[0] == "lock":
+            elif park and park[0] == "lock":
+                # blocked on a lock for good while its holder keeps re-arming a timed wait (so the run never becomes idle-final)
                 sleepers = [(t2, p2, n2) for (t2, p2, _r2, n2) in parked if p2 and p2[0] in ("cond", "event") and len(p2) > 2 and p2[2]]
                 whose = "unknown-lock"
                 try:
@@ -182,9 +183,17 @@ def run_one(desc):
                                     whose = "outer-gate"
                 except Exception:
                     pass
-                hits.append(hit("C04/nested-submit-blocks:lock-held-by-sleeper:%s" % whose, "a submit() issued from inside %s (thread %s) "
-                                "blocks for ever on lock %s (%s) while %r keep re-arming a timed wait (layers %r, base %s)"
-                                % (pend[tid], name, park[1], whose, sleepers, [l[0] for l in desc["layers"]], desc["base"])))
+                if tid in pend:
+                    hits.append(hit("C04/nested-submit-blocks:lock-held-by-sleeper:%s" % whose, "a submit() issued from inside %s (thread %s) "
+                                    "blocks for ever on lock %s (%s) while %r keep re-arming a timed wait (layers %r, base %s)"
+                                    % (pend[tid], name, park[1], whose, sleepers, [l[0] for l in desc["layers"]], desc["base"])))
+                elif sleepers:
+                    hits.append(hit("C04/deadlock:lock-held-by-sleeper:%s" % whose, "thread %s blocks for ever on lock %s (%s) while %r keep "
+                                    "re-arming a timed wait (layers %r, base %s)"
+                                    % (name, park[1], whose, sleepers, [l[0] for l in desc["layers"]], desc["base"])))
+    # other threads queueing behind the same lock as a stuck nested submit are collateral of that finding, not a second one
+    stuck_on = set(h["sig"].rsplit(":", 1)[1] for h in hits if h["sig"].startswith("C04/nested-submit-blocks:lock-held-by-sleeper:"))
+    hits = [h for h in hits if not (h["sig"].startswith("C04/deadlock:lock-held-by-sleeper:") and h["sig"].rsplit(":", 1)[1] in stuck_on)]
     if s.end_reason == "idle" and not ctx.completed:
         for (tid, park, role, name) in parked:
             if tid in pend and park and park[0] == "lock":
